@@ -1144,15 +1144,19 @@ static int json_object_double_to_json_string_format(struct json_object *jso, str
 		{
 			/* last useful digit, always keep 1 zero */
 			p++;
-			for (q = p; *q; q++)
+			/* only the fraction is scanned: stop at the exponent, if any */
+			for (q = p; *q && *q != 'e' && *q != 'E'; q++)
 			{
 				if (*q != '0')
 					p = q;
 			}
-			/* drop trailing zeroes */
-			if (*p != 0)
-				*(++p) = 0;
-			size = p - buf;
+			/* drop trailing zeroes of the fraction, keep the exponent */
+			if (q != p)
+			{
+				p++;
+				memmove(p, q, strlen(q) + 1);
+				size = (int)(p - buf) + (int)strlen(p);
+			}
 		}
 	}
 	// although unlikely, snprintf can fail
